@@ -43,6 +43,11 @@ def corner_floats():
            4503599627370497.5, 1e15 - 0.125, 7.000000000000001, 1e-15 + 1, 0.1 * 3 * 10, 1e22 + 2 ** 22, 4.35 * 100, 1.1 * 1.1]
     for e in range(-320, 309, 7):
         out.append(float(f'1e{e}'))
+    rng = random.Random(13)
+    for e in range(-12, 21):
+        for _ in range(4):           # full-precision doubles in every decimal band from 1e-12 to 1e20
+            out.append(rng.uniform(1, 10) * 10.0 ** e)
+    out += [1 / 30000, 2 / 300000, 1 / 7e5, 1 / 3e6, 7 / 9e5]
     return out + [-x for x in out[2:40]]
 
 
@@ -219,6 +224,40 @@ def core_sci(m, e, neg):
     return _parse_ok(text)
 
 
+PI_TEXTS = ['12', 'fg', 'z', '10', '7', '19', '2', 'g', '101', 'Zz', '-11', '+7', '1_0', ' 12 ', '']
+
+
+def core_parseint(t, radix):
+    text = PI_TEXTS[0]
+    for j in range(len(PI_TEXTS)):
+        if t == j:
+            text = PI_TEXTS[j]
+    r = SCRIPT_FUNCTIONS['numberParseInt']([text, radix], None)
+    # specification: optional sign, then one or more digits all smaller than the radix (0-9, a-z case-insensitive); anything else -> null
+    body = text.strip()
+    sign = 1
+    if body[:1] in ('+', '-'):
+        sign = -1 if body[0] == '-' else 1
+        body = body[1:]
+    digits = []
+    for c in body.lower():
+        v = ord(c) - 48 if '0' <= c <= '9' else (ord(c) - 87 if 'a' <= c <= 'z' else 99)
+        digits.append(v)
+    if not digits or any(v >= radix for v in digits):
+        want = None
+    else:
+        want = 0
+        for v in digits:
+            want = want * radix + v
+        want *= sign
+    if '_' in text:
+        return True, {{}}          # digit-group underscores: host-syntax corner, not demanded either way
+    if r != want or (r is None) != (want is None):
+        return False, {{'clause': 'numberParseInt must return the integer value of the text in the radix, or null', 'text': text, 'radix': radix,
+                       'result': repr(r), 'expected': repr(want)}}
+    return True, {{}}
+
+
 def core_near(k):
     text = NEAR[0]
     for j in range(len(NEAR)):
@@ -303,9 +342,12 @@ def plan(tier, seed, workdir):
         hgen.ch_tasks(p, path, 'pool', timeout, est=20, family='E1 float corner pool', range=[lo, min(n, lo + step)], enum={'k': list(range(lo, min(n, lo + step)))})
     body = CORE.format(lo=0, hi=0)
     body += hgen.harness('int', 'i: int', ['-70 <= i <= 70'], core_call='core_int(i)')
+    body += hgen.harness('parseint', 't: int, radix: int', ['0 <= t < 15', '2 <= radix <= 36'], core_call='core_parseint(t, radix)')
     erange = 330 if tier == 'quick' else 420
     path = hgen.write_module(workdir, 'c13_misc', body, stub=False)
     hgen.ch_tasks(p, path, 'int', timeout, family='E1 value_string(int)')
+    hgen.ch_tasks(p, path, 'parseint', timeout, family='E1 numberParseInt over a text pool x symbolic radix',
+                  enum={'t': list(range(15)), 'radix': list(range(2, 37))})
     p.add({'kind': 'native', 'id': 'near_native', 'module': 'vf.props.c13', 'fn': 'near_native', 'kwargs': {}, 'timeout': 120},
           family='near-miss texts for the parsers (concrete pool, native by-product)')
     for neg in (False, True):
